@@ -178,6 +178,11 @@ def check_mesh(t, name, V0, F, vname, tier):
     except Exception:
         pass
     firsts = {}
+    # what the engines are given: the same rays with direction vectors of very different lengths
+    # (a ray is the same ray whatever the length of its direction vector); the oracle keeps unit directions
+    lengths = np.array([1.0, 1e4, 1e-3, 7.5])[np.arange(len(dirn)) % 4]
+    unit_dirn = dirn
+    dirn = dirn * lengths[:, None]
     for en, eng in engines.items():
         cls = f"{en}; {vname}"
         ltol = (1e-9 if en == "rtree" else 2e-5) * max(size, mag)
@@ -204,7 +209,7 @@ def check_mesh(t, name, V0, F, vname, tier):
             # every reported hit (in-domain rays) lies on the ray ahead of the origin and on the reported triangle
             sel = in_domain[ir]
             if sel.any():
-                o, d = orig[ir[sel]], dirn[ir[sel]]
+                o, d = orig[ir[sel]], unit_dirn[ir[sel]]
                 rel = loc[sel] - o
                 along = np.einsum("ij,ij->i", rel, d)
                 off = np.linalg.norm(rel - along[:, None] * d, axis=1)
